@@ -462,6 +462,7 @@ def handleLine (ds : DState) (line : String) : DState × Json :=
         | "resources" => some (handleResources j)
         | "validate" => some (handleValidate j)
         | "startup" => some (handleStartup j)
+        | "assemble" => some (handleAssemble j)
         | "decode" => some (handleDecode j)
         | "decode2" => some (handleDecode2 j)
         | _ => none
